@@ -246,16 +246,17 @@ class P_xcfg(StructureParser):
                 emsg = "H0 tensor is not properly defined"
                 raise StructureFormatError(emsg)
             p_auxnum = len(p_auxiliary) and max(p_auxiliary.keys()) + 1
+            # check entry_count before filling in the unnamed auxiliaries
+            ecnt = p_auxnum + (3 if xcfg_NO_VELOCITY else 6)
+            if ecnt != xcfg_entry_count:
+                emsg = ("%d: auxiliary fields are " "not consistent with entry_count") % p_nl
+                raise StructureFormatError(emsg)
             for i in range(p_auxnum):
                 if i not in p_auxiliary:
                     p_auxiliary[i] = "aux%d" % i
             sorted_aux_keys = sorted(p_auxiliary.keys())
             if p_auxnum != 0:
                 stru.xcfg = {"auxiliaries": [p_auxiliary[k] for k in sorted_aux_keys]}
-            ecnt = len(p_auxiliary) + (3 if xcfg_NO_VELOCITY else 6)
-            if ecnt != xcfg_entry_count:
-                emsg = ("%d: auxiliary fields are " "not consistent with entry_count") % p_nl
-                raise StructureFormatError(emsg)
             # define proper lattice
             stru.lattice.setLatBase(xcfg_H0)
             # here we are inside the data block
@@ -282,7 +283,7 @@ class P_xcfg(StructureParser):
             if len(stru) != p_natoms:
                 emsg = "expected %d atoms, read %d" % (p_natoms, len(stru))
                 raise StructureFormatError(emsg)
-        except (ValueError, IndexError, TypeError, ZeroDivisionError, LatticeError):
+        except (ValueError, IndexError, TypeError, AttributeError, ZeroDivisionError, LatticeError):
             emsg = "%d: file is not in XCFG format" % p_nl
             exc_type, exc_value, exc_traceback = sys.exc_info()
             e = StructureFormatError(emsg)
